@@ -10,3 +10,13 @@ Definition coef_e (i : nat) : expr := nth i k_spline__segment (Lit 0).
 Definition e_fdx : expr := hd (Lit 0) k_spline__f_dx.
 Definition fdx_b : expr := subst [Var 2; Var 3; Var 4; Var 5; Var 6; Var 7] e_fdx.
 Definition interior_e (i : nat) : expr := subst [e_fdx; Var 2; Var 3; fdx_b; Var 4; Var 5] (coef_e i).
+
+(* the two END cubics, from three knots (x0,y0),(x1,y1),(x2,y2) = Var 0..5:
+   first:  segment(f_x0(y1,y0,x1,x0, f_dx(k0,k1,k2)), k0, f_dx(k0,k1,k2), k1)
+   last :  segment(f_dx(k0,k1,k2), k1, f_xn(y2,y1,x2,x1, f_dx(k0,k1,k2)), k2)      (k0,k1,k2 the LAST three knots) *)
+Definition e_fx0 : expr := hd (Lit 0) k_spline__f_x0.
+Definition e_fxn : expr := hd (Lit 0) k_spline__f_xn.
+Definition fx0_c : expr := subst [Var 3; Var 1; Var 2; Var 0; e_fdx] e_fx0.
+Definition fxn_c : expr := subst [Var 5; Var 3; Var 4; Var 2; e_fdx] e_fxn.
+Definition first_e (i : nat) : expr := subst [fx0_c; Var 0; Var 1; e_fdx; Var 2; Var 3] (coef_e i).
+Definition last_e (i : nat) : expr := subst [e_fdx; Var 2; Var 3; fxn_c; Var 4; Var 5] (coef_e i).
